@@ -216,7 +216,7 @@ def h_step_forward_tsn(ctx, layout):
         ctx.observe("got", got["r"])
 
 
-def h_step_sack_abandon(ctx, q, ngaps):
+def h_step_sack_abandon(ctx, q, ngaps, parked=False):
     """Sender: one SACK (symbolic cumulative point / gap blocks, miss counters symbolic) while the q
     fragments of one maxRetransmits=0 message are in flight: a third strike abandons the message.
     Flight-size accounting, timer and queue invariants of C02 must survive, and the message is
@@ -226,6 +226,19 @@ def h_step_sack_abandon(ctx, q, ngaps):
     with Env(crc=_crc()) as env:
         t, base, chunks, sentlog = _sym_sender(ctx, env, q, 0, pr=True)
         env.channel(t, id=3, maxRetransmits=0)
+        if parked:
+            # the message's last fragment has not been sent yet (window full) and a message of a
+            # reliable channel waits behind it in the channel queue
+            from .c02_drain import _chunk
+
+            chunks[-1].flags &= ~1
+            tail = _chunk((base + q) & U32, ctx.int("tail_book", 1, 1200))
+            tail.flags, tail.stream_id, tail._max_retransmits, tail._sent_count = 1, 3, 0, 0
+            t._outbound_queue.append(tail)
+            t._local_tsn = (base + q + 1) & U32
+            rel = env.channel(t, id=1)
+            t._data_channel_queue.append((rel, 53, b"R"))
+            rel._addBufferedAmount(1)
         _check_inv(ctx, t, "pre")
         s = sctp.SackChunk()
         adv = ctx.int("cum_advance", -1, q + 1)
@@ -244,7 +257,7 @@ def h_step_sack_abandon(ctx, q, ngaps):
         ctx.observe("left", len(left))
 
 
-def h_step_forward_acked(ctx, q):
+def h_step_forward_acked(ctx, q, parked=False):
     """Sender: a FORWARD-TSN over j abandoned chunks is outstanding (with its stream entry) in front
     of q ordinary outstanding chunks; one SACK arrives.  Once the peer's cumulative TSN covers the
     forward point, the stream bookkeeping of that FORWARD-TSN is gone - a later FORWARD-TSN must not
@@ -263,6 +276,10 @@ def h_step_forward_acked(ctx, q):
         t._forward_tsn_chunk = None  # it has been transmitted (_transmit sends it in the same call that builds it)
         if not q:
             t._t3_start()
+        if parked:
+            rel = env.channel(t, id=1)
+            t._data_channel_queue.append((rel, 53, b"R"))
+            rel._addBufferedAmount(1)
         _check_inv(ctx, t, "pre")
         s = sctp.SackChunk()
         adv = ctx.int("cum_advance", -4, q)
@@ -424,8 +441,8 @@ STUBS = [
 HARNESSES = {
     "bmc": Harness("bmc", h_bmc, _bmc_jobs, style="BMC", bounds="2 channels (reliable ordered + partially reliable: maxRetransmits 0/1 or lifetime, ordered/unordered); <=3 messages of <=2 (3) fragments; cwnd of 1, 2 or 8 fragments; 3 (quick) / 4 solver-chosen events; then a loss-free suffix and one fresh message per channel", encoded=ENC, stubs=STUBS, twin="suffix-done", opts={"samples": 1}),
     "step-forward-tsn": Harness("step-forward-tsn", h_step_forward_tsn, _fwd_layouts, style="STEP", bounds="4 (quick) / 6 interleavings of reliable and abandoned PR fragments over consecutive TSNs with symbolic origin; which reliable fragments arrived before the FORWARD-TSN is solver-chosen", encoded=ENC, stubs=STUBS, twin="forward-tsn-processed"),
-    "step-sack-abandon": Harness("step-sack-abandon", h_step_sack_abandon, lambda tier: [{"q": q, "ngaps": g} for q in ((2, 3) if tier == "quick" else (2, 3, 4)) for g in (1, 2) if not (tier == "quick" and q == 3 and g == 2)], style="STEP", bounds="one maxRetransmits=0 message of 2..3 (4) fragments in flight with symbolic sizes, miss counters and gap-ack flags; one SACK with symbolic cumulative point and <=2 gap blocks; TSN origin symbolic", encoded=ENC, stubs=STUBS, twin="sack-over-pr-message-processed", opts={"samples": 1}),
-    "step-forward-acked": Harness("step-forward-acked", h_step_forward_acked, lambda tier: [{"q": q} for q in ((0, 1) if tier == "quick" else (0, 1, 2))], style="STEP", bounds="FORWARD-TSN over 1..3 abandoned chunks outstanding with one (stream, sequence) entry, 0..1 (quick) / 0..2 further outstanding chunks in arbitrary state, one SACK with symbolic cumulative point; TSN origin symbolic", encoded=ENC, stubs=STUBS, twin="sack-over-forward-tsn-processed", opts={"samples": 1}),
+    "step-sack-abandon": Harness("step-sack-abandon", h_step_sack_abandon, lambda tier: [{"q": q, "ngaps": g} for q in ((2, 3) if tier == "quick" else (2, 3, 4)) for g in (1, 2) if not (tier == "quick" and q == 3 and g == 2)] + [{"q": 2, "ngaps": g, "parked": True} for g in ((1,) if tier == "quick" else (1, 2))], style="STEP", bounds="one maxRetransmits=0 message of 2..3 (4) fragments in flight with symbolic sizes, miss counters and gap-ack flags; one SACK with symbolic cumulative point and <=2 gap blocks; TSN origin symbolic", encoded=ENC, stubs=STUBS, twin="sack-over-pr-message-processed", opts={"samples": 1}),
+    "step-forward-acked": Harness("step-forward-acked", h_step_forward_acked, lambda tier: [{"q": q} for q in ((0, 1) if tier == "quick" else (0, 1, 2))] + [{"q": 0, "parked": True}], style="STEP", bounds="FORWARD-TSN over 1..3 abandoned chunks outstanding (in one job with a reliable channel's message parked in the channel queue) with one (stream, sequence) entry, 0..1 (quick) / 0..2 further outstanding chunks in arbitrary state, one SACK with symbolic cumulative point; TSN origin symbolic", encoded=ENC, stubs=STUBS, twin="sack-over-forward-tsn-processed", opts={"samples": 1}),
     "step-forward-held": Harness("step-forward-held", h_step_forward_held, lambda tier: [{"held": h} for h in ((0, 1) if tier == "quick" else (0, 1, 2))], style="STEP", bounds="ordered PR stream at a symbolic 16-bit sequence origin and 32-bit TSN origin: one lost message, 0..1 (quick) / 0..2 received messages held behind it, FORWARD-TSN over all of them, then the next two messages in swapped order", encoded=ENC, stubs=STUBS, twin="forward-tsn-over-held-processed", opts={"samples": 1}),
     "step-abandon": Harness("step-abandon", h_step_abandon, lambda tier: [{"nfrag": n, "nsent": s, "pos": 0} for n in (2, 3) for s in range(1, n + 1)], style="STEP", bounds="PR message of 2..3 fragments of which 1..n are in flight when T3 abandons it; TSN origin symbolic", encoded=ENC, stubs=STUBS, twin="abandoned"),
 }
